@@ -688,6 +688,11 @@ func (rw *rewriter) dropUnusedImports() {
 			} else {
 				p, _ := strconv.Unquote(is.Path.Value)
 				name = p[strings.LastIndex(p, "/")+1:]
+				for orig, shim := range shimOf { // the shim packages keep the package name of the package they replace
+					if p == shim {
+						name = orig[strings.LastIndex(orig, "/")+1:]
+					}
+				}
 			}
 			if name == "_" || name == "." || used[name] {
 				keep = append(keep, sp)
